@@ -25,16 +25,20 @@ type caRecord struct {
 }
 
 type fakeCA struct {
-	mu        sync.Mutex
-	base      string // scheme://host as the client sees it
-	rnd       *mrand.Rand
-	recs      []caRecord
-	issued    map[string]bool
-	acctURL   string
-	terms     string
-	eabNeeded bool
-	seq       int
-	suffix    string // query string with JSON/HTML-hostile characters appended to resource URLs
+	mu           sync.Mutex
+	base         string // scheme://host as the client sees it
+	rnd          *mrand.Rand
+	recs         []caRecord
+	issued       map[string]bool
+	used         map[string]int
+	reused       []string
+	uniqueNonces bool
+	nonceSeq     int
+	acctURL      string
+	terms        string
+	eabNeeded    bool
+	seq          int
+	suffix       string // query string with JSON/HTML-hostile characters appended to resource URLs
 }
 
 func newFakeCA(base string, r *mrand.Rand) *fakeCA {
@@ -59,6 +63,10 @@ func (ca *fakeCA) newNonce() string {
 		b[i] = b64urlChars[ca.rnd.IntN(64)]
 	}
 	s := string(b)
+	if ca.uniqueNonces {
+		ca.nonceSeq++
+		s = fmt.Sprintf("%d-%s", ca.nonceSeq, s) // never the same nonce twice: reuse can then only be the client's doing
+	}
 	ca.issued[s] = true
 	return s
 }
@@ -121,9 +129,21 @@ func (ca *fakeCA) ServeHTTP(w http.ResponseWriter, r *http.Request) {
 	}
 	ca.recs = append(ca.recs, caRecord{Method: r.Method, URL: abs, ContentType: r.Header.Get("Content-Type"), Body: body})
 	// lenient peek at the payload, only to pick a plausible answer
-	var env struct{ Payload string }
+	var env struct{ Payload, Protected string }
 	json.Unmarshal(body, &env)
 	payload, _ := base64.RawURLEncoding.DecodeString(env.Payload)
+	// nonce ledger (RFC 8555 §6.5: a nonce is good for one request)
+	if ph, err := base64.RawURLEncoding.DecodeString(env.Protected); err == nil {
+		var h struct{ Nonce string }
+		json.Unmarshal(ph, &h)
+		if ca.used == nil {
+			ca.used = map[string]int{}
+		}
+		ca.used[h.Nonce]++
+		if ca.used[h.Nonce] > 1 {
+			ca.reused = append(ca.reused, h.Nonce)
+		}
+	}
 	w.Header().Set("Content-Type", "application/json")
 	ca.seq++
 	switch {
